@@ -99,8 +99,9 @@ class Ctx(object):
                 s['detail'] = sample
             self.samples.append(s)
         if not ok:
-            self.finding(rule, node=node, construct=construct, text=text,
-                         message=message or what, extra=extra)
+            f = self.finding(rule, node=node, construct=construct, text=text,
+                             message=message or what, extra=extra)
+            f.what = what
         return ok
 
     def finding(self, rule, node=None, construct=None, text=None, message='', extra=None):
@@ -175,8 +176,18 @@ def write_evidence(ctx, prop, explanation, assumptions, violations, extra_cov=No
         if c < 4:
             samples.append(s)
             seen_rules[s['rule']] = c + 1
+    catalogue = {}
+    for o in ctx.obligations:
+        e = catalogue.setdefault(o['rule'], {}).setdefault(
+            o['what'], {'instances': 0, 'discharged': 0, 'sites': []})
+        e['instances'] += 1
+        e['discharged'] += 1 if o['ok'] else 0
+        if o.get('at') and o['at'] not in e['sites'] and len(e['sites']) < 6:
+            e['sites'].append(o['at'])
     cov = {
         'explanation': explanation,
+        'rule_catalogue': catalogue,
+        'rules_shared_with_sibling_properties': getattr(ctx, 'imported', {}),
         'obligations': obligations,
         'discharged': discharged,
         'evaluations': max(obligations, 1),
@@ -218,6 +229,52 @@ def write_evidence(ctx, prop, explanation, assumptions, violations, extra_cov=No
     return path
 
 
+def run_also(ctx, prop, module):
+    """Rules of sibling properties that are necessary conditions of this property as
+    well (module.ALSO = {'Cyy': {'Ryy.n': reason}}): evaluated by the sibling's module on
+    the same graphs and reported under this property.  They are extras: when the sibling
+    cannot run (its anchors vanished) that is noted, the property's own rules decide."""
+    import importlib
+    ctx.imported = {}
+    for oprop, rules in sorted(getattr(module, 'ALSO', {}).items()):
+        om = importlib.import_module('tcsa.rules.%s' % oprop.lower())
+        sub = Ctx.__new__(Ctx)
+        sub.prop, sub.repo, sub.tier = prop, ctx.repo, ctx.tier
+        sub.program, sub._graphs = ctx.program, ctx._graphs
+        sub.obligations, sub.findings, sub.instances = [], [], {}
+        sub.notes, sub.samples, sub.t0 = [], [], ctx.t0
+        sub.recursion_cuts = getattr(ctx, 'recursion_cuts', [])
+        try:
+            om.check(sub)
+        except AnalysisError as e:
+            ctx.note('rules %s of %s not evaluated here: %s' % (sorted(rules), oprop, e))
+            if not sub.findings:
+                continue
+        def wanted(rule, text):
+            if rule not in rules:
+                return False
+            why = rules[rule]
+            # (reason, prefix): only the instances about one command
+            return not isinstance(why, tuple) or (text or '').startswith(why[1])
+        for o in sub.obligations:
+            if wanted(o['rule'], o['what']):
+                ctx.obligations.append(o)
+                ctx.instances[o['rule']] = ctx.instances.get(o['rule'], 0) + 1
+        seen = {}
+        for smp in sub.samples:
+            if wanted(smp['rule'], smp['what']) and seen.get(smp['rule'], 0) < 4:
+                seen[smp['rule']] = seen.get(smp['rule'], 0) + 1
+                ctx.samples.append(smp)
+        for f in sub.findings:
+            if wanted(f.rule, getattr(f, 'what', None) or f.message) and \
+                    not any(g.key() == f.key() for g in ctx.findings):
+                ctx.findings.append(f)
+        for r_, why in rules.items():
+            ctx.imported[r_] = '%s (rule of %s%s)' % (
+                why[0] if isinstance(why, tuple) else why, oprop,
+                ', instances "%s..."' % why[1] if isinstance(why, tuple) else '')
+
+
 def run_check(prop, module, repo, tier, evidence_dir=None, replay_dir=None, quiet=False):
     """Run one property's rules; print the verdict lines; return the exit code."""
     out = sys.stdout
@@ -226,6 +283,7 @@ def run_check(prop, module, repo, tier, evidence_dir=None, replay_dir=None, quie
     try:
         ctx = Ctx(prop, repo, tier)
         module.check(ctx)
+        run_also(ctx, prop, module)
         if getattr(ctx, 'recursion_cuts', None) and not ctx.findings:
             # the body of a recursive function is analysed once; a pass obtained with
             # a recursion cut in the graph is not trusted
